@@ -74,6 +74,10 @@ def run(ctx, col, tier):
     col.assumptions += ["numpy: python-scalar * array keeps the array dtype; astype(T) has dtype T",
                         "np.moveaxis / transpose permute axes as documented"]
 
+    from ..rules import memo
+    memo.run(ctx, col, ('swcgeom.images.io', 'swcgeom.images.folder', 'swcgeom.transforms.image_stack'))
+    from ..rules import ignoredparam
+    ignoredparam.run(ctx, col, ('swcgeom.images.io', 'swcgeom.transforms.image_stack'))
     col.guard(dtype_rule, ctx, col)
     col.guard(keynorm, ctx, col)
     col.guard(axes, ctx, col)
